@@ -76,6 +76,18 @@ func runC21(c *Ctx) {
 				n++
 				name := fn.Name()
 				allowed := name == "InvalidateCache" || strings.HasPrefix(name, "NewAuthManager") || strings.HasPrefix(name, "New")
+				// a reset to a fresh, never populated map cannot resurrect anything
+				if mk, ok := st.Val.(*ssa.MakeMap); ok {
+					populated := false
+					for _, r := range *mk.Referrers() {
+						if _, ok := r.(*ssa.MapUpdate); ok {
+							populated = true
+						}
+					}
+					if !populated {
+						allowed = true
+					}
+				}
 				c.Check(allowed, "C21.OWN", name+"|replaces-cache-map", st.Pos(), "the cache map is replaced by its owner", name+" installs a new map as the token cache: entries copied before a concurrent InvalidateCache are put back after it, and a revoked, deleted or rotated token value keeps authenticating from the cache")
 			}
 		}
